@@ -118,3 +118,521 @@ Proof.
   - rewrite !rev_length. lia.
   - apply Forall_rev. exact (inb_nonneg _ _ Hi).
 Qed.
+
+(* ------------------------------------------------------------------------------------------ *)
+(* positions: set_nth / upd / map_at / flat rank                                               *)
+
+Lemma zlen_nonneg {A} (l : list A) : 0 <= zlen l.
+Proof. unfold zlen. lia. Qed.
+
+Lemma set_nth_S k v x t : set_nth (S k) v (x :: t) = x :: set_nth k v t.
+Proof. reflexivity. Qed.
+
+Lemma set_nth_length k v l : (k < length l)%nat -> length (set_nth k v l) = length l.
+Proof.
+  revert l. induction k as [|k IH]; intros [|x t] H; simpl in H; try lia.
+  - reflexivity.
+  - rewrite set_nth_S. simpl. now rewrite IH by lia.
+Qed.
+
+Lemma nth_set_nth k v l : (k < length l)%nat -> nth k (set_nth k v l) 0 = v.
+Proof.
+  revert l. induction k as [|k IH]; intros [|x t] H; simpl in H; try lia.
+  - reflexivity.
+  - rewrite set_nth_S. simpl. apply IH. lia.
+Qed.
+
+Lemma set_nth_same l : forall k, (k < length l)%nat -> set_nth k (nth k l 0) l = l.
+Proof.
+  induction l as [|x t IH]; intros [|k] H; simpl in H; try lia.
+  - reflexivity.
+  - rewrite set_nth_S. simpl. now rewrite IH by lia.
+Qed.
+
+Lemma upd_set_nth l : forall k v, (k < length l)%nat -> upd l k v = set_nth k v l.
+Proof.
+  induction l as [|x t IH]; intros [|k] v H; simpl in H; try lia.
+  - reflexivity.
+  - rewrite set_nth_S. simpl. now rewrite IH by lia.
+Qed.
+
+Lemma map_at_none f l : forall k axis, axis < k -> map_at k axis f l = l.
+Proof.
+  induction l as [|x t IH]; intros k axis H; simpl; [reflexivity|].
+  replace (k =? axis) with false by lia. now rewrite IH by lia.
+Qed.
+
+Lemma map_at_spec f l : forall k axis, 0 <= axis - k < zlen l ->
+  map_at k axis f l = set_nth (Z.to_nat (axis - k)) (f (nth (Z.to_nat (axis - k)) l 0)) l.
+Proof.
+  induction l as [|x t IH]; intros k axis H; unfold zlen in H; simpl length in H; [simpl in H; lia|].
+  cbn [map_at]. destruct (Z.eqb_spec k axis) as [->|Hne].
+  - rewrite Z.sub_diag. cbn. now rewrite map_at_none by lia.
+  - replace (Z.to_nat (axis - k)) with (S (Z.to_nat (axis - (k + 1)))) by lia.
+    rewrite set_nth_S. cbn [nth]. rewrite IH; [reflexivity|]. unfold zlen. lia.
+Qed.
+
+Lemma inb_nth_bound i s : inb i s -> forall k, (k < length s)%nat -> 0 <= nth k i 0 < nth k s 0.
+Proof.
+  induction 1 as [|x n i s Hx H IH]; intros [|k] Hk; simpl in *; try lia. apply IH. lia.
+Qed.
+
+(* from an index of the shape with position k replaced, any in-range value at k gives an index of s *)
+Lemma inb_set_nth_change i : forall s k m v, (k < length s)%nat -> inb i (set_nth k m s) ->
+  0 <= v < nth k s 0 -> inb (set_nth k v i) s.
+Proof.
+  induction i as [|x i IH]; intros [|n s] [|k] m v Hk Hi Hv; simpl in *; try lia;
+    inversion Hi; subst.
+  - constructor; [lia | assumption].
+  - fold (set_nth k v i). constructor; [assumption|]. apply (IH s k m v); auto. lia.
+Qed.
+
+Lemma inb_set_nth_bound i s k m : (k < length s)%nat -> inb i (set_nth k m s) -> 0 <= nth k i 0 < m.
+Proof.
+  intros Hk Hi. pose proof (inb_nth_bound _ _ Hi k) as H.
+  rewrite set_nth_length, nth_set_nth in H by assumption. auto.
+Qed.
+
+Lemma np_axis_nonneg a d : 0 <= a < d -> np_axis a d = Some (Z.to_nat a).
+Proof. intros H. unfold np_axis. replace ((0 <=? a) && (a <? d)) with true by lia. reflexivity. Qed.
+
+Lemma np_axis_neg a d : - d <= a < 0 -> np_axis a d = Some (Z.to_nat (a + d)).
+Proof.
+  intros H. unfold np_axis. replace ((0 <=? a) && (a <? d)) with false by lia.
+  replace ((- d <=? a) && (a <? 0)) with true by lia. reflexivity.
+Qed.
+
+Lemma in_range_nonneg l a : 0 <= a < zlen l -> neg_pos l a = a /\ in_range l a = true.
+Proof. intros H. unfold neg_pos, in_range. replace (a <? 0) with false by lia. split; [reflexivity | lia]. Qed.
+
+Lemma set_neg_nonneg l a v : 0 <= a < zlen l -> set_neg l a v = set_nth (Z.to_nat a) v l.
+Proof.
+  intros H. unfold set_neg. destruct (in_range_nonneg l a H) as [-> ->].
+  apply upd_set_nth. unfold zlen in H. lia.
+Qed.
+
+Lemma at_neg_nonneg l a : 0 <= a -> at_neg l a = nth (Z.to_nat a) l 0.
+Proof. intros H. unfold at_neg, neg_pos, znth. now replace (a <? 0) with false by lia. Qed.
+
+(* negative positions: at() adds the length *)
+Lemma set_neg_neg l a v : - zlen l <= a < 0 -> set_neg l a v = set_nth (Z.to_nat (a + zlen l)) v l.
+Proof.
+  intros H. unfold set_neg, neg_pos, in_range. replace (a <? 0) with true by lia.
+  replace ((0 <=? zlen l + a) && (zlen l + a <? zlen l)) with true by lia.
+  rewrite Z.add_comm. apply upd_set_nth. unfold zlen in *. lia.
+Qed.
+Lemma at_neg_neg l a : a < 0 -> at_neg l a = nth (Z.to_nat (a + zlen l)) l 0.
+Proof. intros H. unfold at_neg, neg_pos, znth. replace (a <? 0) with true by lia. now rewrite Z.add_comm. Qed.
+
+(* flat rank (Horner) <-> compute_indices *)
+Lemma unrav_rank s k : pos s -> 0 <= k < prod s ->
+  inb (compute_indices k s) s /\ horner 0 (compute_indices k s) s = k.
+Proof.
+  intros Hp Hk. split; [now apply unrav_inb|].
+  rewrite horner_off by now apply unrav_inb. rewrite <- compute_strides_eq, <- compute_offset_eq.
+  rewrite off_unrav by assumption. lia.
+Qed.
+
+Lemma rank_bound s i : inb i s -> 0 <= horner 0 i s < prod s.
+Proof. intros H. rewrite horner_off by assumption. pose proof (off_bound _ _ H). lia. Qed.
+
+Lemma zlen_inb i s : inb i s -> zlen i = zlen s.
+Proof. intros H. unfold zlen. now rewrite (inb_length _ _ H). Qed.
+
+(* ------------------------------------------------------------------------------------------ *)
+(* repeat                                                                                      *)
+
+Lemma repeat_none_spec s r k : pos s -> 1 <= r -> inb [k] (shape_repeat_none s r) ->
+  shape_repeat_none s r = np_repeat_none_shape s r
+  /\ inb (repeat_none_index s r [k]) s
+  /\ horner 0 (repeat_none_index s r [k]) s = np_repeat_none_flat r k.
+Proof.
+  intros Hp Hr Hi. unfold shape_repeat_none, np_repeat_none_shape, repeat_none_index, np_repeat_none_flat in *.
+  rewrite product_eq_prod in *. split; [reflexivity|]. inversion Hi; subst. cbn [hd].
+  apply unrav_rank; [assumption|]. pose proof (prod_pos _ Hp).
+  split; [apply Z.div_pos; lia | apply Z.div_lt_upper_bound; lia].
+Qed.
+
+Lemma repeat_axis_shape_spec s r a : 0 <= a < zlen s ->
+  shape_repeat_axis s r a = Val (set_nth (Z.to_nat a) (nth (Z.to_nat a) s 0 * r) s)
+  /\ np_repeat_axis_shape s r a = Some (set_nth (Z.to_nat a) (nth (Z.to_nat a) s 0 * r) s).
+Proof.
+  intros Ha. unfold shape_repeat_axis, np_repeat_axis_shape.
+  destruct (in_range_nonneg s a Ha) as [-> ->]. rewrite np_axis_nonneg by assumption.
+  rewrite set_neg_nonneg, at_neg_nonneg by lia. split; reflexivity.
+Qed.
+
+Lemma repeat_axis_elem_spec s r a i : pos s -> 1 <= r -> 0 <= a < zlen s ->
+  inb i (set_nth (Z.to_nat a) (nth (Z.to_nat a) s 0 * r) s) ->
+  np_repeat_axis_index i r a = Some (repeat_axis_index i r a) /\ inb (repeat_axis_index i r a) s.
+Proof.
+  intros Hp Hr Ha Hi. set (k := Z.to_nat a) in *.
+  assert (Hk : (k < length s)%nat) by (unfold zlen in Ha; lia).
+  assert (Hl : zlen i = zlen s) by (rewrite (zlen_inb _ _ Hi); unfold zlen; now rewrite set_nth_length).
+  unfold repeat_axis_index, np_repeat_axis_index. rewrite np_axis_nonneg by lia.
+  rewrite map_at_spec by lia. rewrite Z.sub_0_r. fold k. split; [reflexivity|].
+  apply (inb_set_nth_change i s k _ _ Hk Hi).
+  pose proof (inb_set_nth_bound _ _ _ _ Hk Hi) as Hb.
+  split; [apply Z.div_pos; lia | apply Z.div_lt_upper_bound; lia].
+Qed.
+
+(* ------------------------------------------------------------------------------------------ *)
+(* roll                                                                                        *)
+
+Lemma norm_roll_mod x n : 0 < n -> norm_roll x n = x mod n.
+Proof.
+  intros Hn. unfold norm_roll. pose proof (Z.rem_bound_abs x n ltac:(lia)) as Hb.
+  pose proof (Z.quot_rem' x n) as Hq.
+  destruct (Z.ltb_spec (Z.rem x n) 0) as [Hneg|Hpos].
+  - apply (Z.mod_unique x n (x ÷ n - 1)); [left; lia | lia].
+  - apply (Z.mod_unique x n (x ÷ n)); [left; lia | lia].
+Qed.
+
+(* one axis, non negative or negative: same formula after NumPy's normalisation *)
+Lemma roll_axis_spec s i shift a : pos s -> - zlen s <= a < zlen s -> inb i s ->
+  shape_roll_axis s a = Val s
+  /\ np_roll_axis_index s i shift a = Some (roll_axis_index s i shift a)
+  /\ inb (roll_axis_index s i shift a) s.
+Proof.
+  intros Hp Ha Hi. pose proof (zlen_inb _ _ Hi) as Hl.
+  unfold shape_roll_axis, normalize_axis. replace ((- zlen s <=? a) && (a <? zlen s)) with true by lia.
+  split; [reflexivity|]. unfold np_roll_axis_index, roll_axis_index.
+  assert (Hgen : forall k, (k < length s)%nat ->
+    inb (set_nth k ((nth k i 0 - shift) mod nth k s 0) i) s).
+  { intros k Hk. apply (inb_set_nth_change i s k (nth k s 0)); [assumption| |].
+    - now rewrite set_nth_same.
+    - apply Z.mod_pos_bound. pose proof (inb_nth_bound _ _ Hi k Hk). lia. }
+  destruct (Z.lt_ge_cases a 0) as [Hneg|Hnn].
+  - rewrite np_axis_neg by lia. rewrite set_neg_neg, !at_neg_neg by lia. rewrite Hl.
+    set (k := Z.to_nat (a + zlen s)). assert (Hk : (k < length s)%nat) by (unfold zlen in *; lia).
+    rewrite norm_roll_mod by (pose proof (inb_nth_bound _ _ Hi k Hk); lia). split; [reflexivity | now apply Hgen].
+  - rewrite np_axis_nonneg by lia. rewrite set_neg_nonneg, !at_neg_nonneg by lia.
+    set (k := Z.to_nat a). assert (Hk : (k < length s)%nat) by (unfold zlen in *; lia).
+    rewrite norm_roll_mod by (pose proof (inb_nth_bound _ _ Hi k Hk); lia). split; [reflexivity | now apply Hgen].
+Qed.
+
+(* axis = None: flatten, roll the 1-d array, reshape back *)
+Lemma compute_indices_1 k n : compute_indices k [n] = [k / 1 mod n].
+Proof. unfold compute_indices. rewrite compute_strides_eq. reflexivity. Qed.
+
+Lemma roll_none_spec s i shift : pos s -> inb i s ->
+  inb (roll_none_index s i shift) s
+  /\ horner 0 (roll_none_index s i shift) s = np_roll_none_flat s shift (horner 0 i s).
+Proof.
+  intros Hp Hi. pose proof (prod_pos _ Hp) as Hn. pose proof (rank_bound _ _ Hi) as Hk.
+  unfold roll_none_index, np_roll_none_flat, reshape_index. rewrite product_eq_prod.
+  rewrite compute_indices_1.
+  assert (Hoff : compute_offset i (compute_strides s) = horner 0 i s).
+  { rewrite compute_offset_eq, compute_strides_eq, horner_off by assumption. lia. }
+  rewrite Hoff. set (k := horner 0 i s) in *. rewrite Z.div_1_r, (Z.mod_small k) by lia.
+  assert (Hr : roll_axis_index [prod s] [k] shift 0 = [norm_roll (k - shift) (prod s)]) by reflexivity.
+  rewrite Hr, norm_roll_mod by lia.
+  assert (Ho : compute_offset [(k - shift) mod prod s] (compute_strides [prod s]) = (k - shift) mod prod s).
+  { rewrite compute_offset_eq, compute_strides_eq. cbn [off strides prod]. ring. }
+  rewrite Ho. apply unrav_rank; [assumption|]. apply Z.mod_pos_bound. lia.
+Qed.
+
+(* ------------------------------------------------------------------------------------------ *)
+(* pad                                                                                         *)
+
+Lemma forallb_map {A B} (f : B -> bool) (g : A -> B) l : forallb f (map g l) = forallb (fun x => f (g x)) l.
+Proof. induction l; simpl; [reflexivity | now rewrite IHl]. Qed.
+Lemma forallb_seq_shift (f : nat -> bool) n : forallb f (seq 1 n) = forallb (fun k => f (S k)) (seq 0 n).
+Proof. rewrite <- seq_shift. apply forallb_map. Qed.
+
+Lemma pad_elem_spec s : forall i w, length i = length s -> (length s <= length w)%nat ->
+  pad_index i s w = doc_pad_index s w i.
+Proof.
+  unfold doc_pad_index.
+  induction s as [|n s IH]; intros [|x i] [|p w] Hi Hw; simpl in Hi, Hw; try lia; try reflexivity.
+  cbn [pad_index length seq forallb map nth]. rewrite forallb_seq_shift, map_seq_shift. cbn [nth].
+  rewrite IH by lia.
+  destruct (Z.leb_spec p x), (Z.ltb_spec x (p + n)), (Z.geb_spec x (n + p)), (Z.ltb_spec (x - p) 0);
+    cbn [andb orb]; try lia; try reflexivity.
+  destruct (forallb _ _); reflexivity.
+Qed.
+
+Lemma pad_inb s : forall i w j, pad_index i s w = Some j -> length i = length s ->
+  (length s <= length w)%nat -> inb j s.
+Proof.
+  induction s as [|n s IH]; intros [|x i] [|p w] j H Hl Hw; simpl in Hl, Hw; try lia; cbn [pad_index] in H;
+    try (injection H as <-; constructor).
+  destruct ((x >=? n + p) || (x - p <? 0)) eqn:E; [discriminate|].
+  destruct (pad_index i s w) eqn:E'; [|discriminate]. injection H as <-.
+  constructor; [lia | apply (IH i w); auto; lia].
+Qed.
+
+Lemma nth_firstn_lt {A} (l : list A) d : forall n k, (k < n)%nat -> nth k (firstn n l) d = nth k l d.
+Proof. induction l as [|x t IH]; intros [|n] [|k] H; simpl; try lia; try reflexivity. apply IH. lia. Qed.
+Lemma nth_skipn_add {A} (l : list A) d : forall n k, nth k (skipn n l) d = nth (n + k) l d.
+Proof. induction l as [|x t IH]; intros [|n] k; simpl; try reflexivity; [now destruct k | apply IH]. Qed.
+
+Lemma pad_shape3_nth s : forall b a, (length s <= length b)%nat -> (length s <= length a)%nat ->
+  pad_shape3 s b a = map (fun k => nth k s 0 + nth k b 0 + nth k a 0) (seq 0 (length s)).
+Proof.
+  induction s as [|x s IH]; intros [|p b] [|q a] Hb Ha; simpl in Hb, Ha; try lia; try reflexivity.
+  cbn [pad_shape3 length seq map nth]. rewrite map_seq_shift. cbn [nth]. now rewrite IH by lia.
+Qed.
+
+Lemma pad_shape_spec s w : zlen s * 2 = zlen w ->
+  exists d, shape_pad s w = Val d /\ doc_pad_shape s w = Some d.
+Proof.
+  intros H. unfold shape_pad, doc_pad_shape. unfold zlen in H.
+  replace (zlen s * 2 =? zlen w) with true by (unfold zlen; lia).
+  replace (length w =? 2 * length s)%nat with true by (symmetry; apply Nat.eqb_eq; lia).
+  eexists. split; [reflexivity|]. f_equal.
+  rewrite pad_shape3_nth by (rewrite ?firstn_length, ?skipn_length; lia).
+  apply map_ext_in. intros k Hk. apply in_seq in Hk.
+  rewrite nth_firstn_lt by lia. now rewrite nth_skipn_add.
+Qed.
+
+(* ------------------------------------------------------------------------------------------ *)
+(* take                                                                                        *)
+
+Lemma np_wrap_index_in n x : 0 <= x < n -> np_wrap_index n x = Some x.
+Proof. intros H. unfold np_wrap_index. now replace ((0 <=? x) && (x <? n)) with true by lia. Qed.
+
+Lemma znth_Forall (P : Z -> Prop) l x : Forall P l -> 0 <= x < zlen l -> P (znth l x).
+Proof.
+  intros HF Hx. rewrite Forall_forall in HF. apply HF. unfold znth. apply nth_In. unfold zlen in Hx. lia.
+Qed.
+
+Lemma take_axis_shape_spec s ind a : 0 <= a < zlen s ->
+  shape_take_axis s ind a = set_nth (Z.to_nat a) (zlen ind) s
+  /\ np_take_axis_shape s ind a = Some (set_nth (Z.to_nat a) (zlen ind) s).
+Proof.
+  intros Ha. unfold shape_take_axis, np_take_axis_shape. rewrite np_axis_nonneg by assumption.
+  rewrite map_at_spec by lia. now rewrite Z.sub_0_r.
+Qed.
+
+Lemma take_axis_elem_spec s ind a i : 0 <= a < zlen s ->
+  Forall (fun x => 0 <= x < nth (Z.to_nat a) s 0) ind -> nth (Z.to_nat a) s 0 <= 2 ^ 64 ->
+  inb i (set_nth (Z.to_nat a) (zlen ind) s) ->
+  np_take_axis_index s ind i a = Some (take_axis_index ind i a) /\ inb (take_axis_index ind i a) s.
+Proof.
+  intros Ha HF Hw Hi. set (k := Z.to_nat a) in *.
+  assert (Hk : (k < length s)%nat) by (unfold zlen in Ha; lia).
+  assert (Hl : zlen i = zlen s) by (rewrite (zlen_inb _ _ Hi); unfold zlen; now rewrite set_nth_length).
+  pose proof (inb_set_nth_bound _ _ _ _ Hk Hi) as Hb.
+  pose proof (znth_Forall _ _ _ HF Hb) as Hx. cbv beta in Hx.
+  unfold take_axis_index, np_take_axis_index. rewrite np_axis_nonneg by assumption. fold k.
+  rewrite map_at_spec by lia. rewrite Z.sub_0_r. fold k.
+  rewrite wrap_small by lia. rewrite np_wrap_index_in by assumption. split; [reflexivity|].
+  now apply (inb_set_nth_change i s k _ _ Hk Hi).
+Qed.
+
+Lemma take_none_spec s ind k : pos s -> prod s <= 2 ^ 64 -> Forall (fun x => 0 <= x < prod s) ind ->
+  inb [k] (shape_take_none ind) ->
+  shape_take_none ind = np_take_none_shape ind
+  /\ inb (take_none_index s ind [k]) s
+  /\ np_take_none_flat s ind k = Some (horner 0 (take_none_index s ind [k]) s).
+Proof.
+  intros Hp Hw HF Hi. split; [reflexivity|]. unfold shape_take_none in Hi. inversion Hi; subst.
+  pose proof (znth_Forall _ _ _ HF ltac:(eassumption)) as Hx. cbv beta in Hx.
+  unfold take_none_index, np_take_none_flat. cbn [hd]. rewrite wrap_small by lia.
+  fold (compute_indices (znth ind k) s). destruct (unrav_rank s _ Hp Hx) as [Hr1 Hr2].
+  split; [assumption|]. rewrite Hr2. now apply np_wrap_index_in.
+Qed.
+
+(* ------------------------------------------------------------------------------------------ *)
+(* concatenate                                                                                 *)
+
+Lemma list_eqb_eq a : forall b, list_eqb a b = true -> a = b.
+Proof.
+  induction a as [|x a IH]; intros [|y b] H; simpl in H; try discriminate; [reflexivity|].
+  apply andb_prop in H as [H1 H2]. apply Z.eqb_eq in H1. subst. f_equal. now apply IH.
+Qed.
+
+Lemma shape_concat_from_past a : forall k axis, axis < k -> shape_concat_from k axis a a = Some a.
+Proof.
+  induction a as [|x a IH]; intros k axis H; cbn [shape_concat_from]; [reflexivity|].
+  replace (k =? axis) with false by lia. rewrite Z.eqb_refl, IH by lia. reflexivity.
+Qed.
+
+Lemma shape_concat_from_spec a : forall b k axis, 0 <= axis - k < zlen a -> length a = length b ->
+  set_nth (Z.to_nat (axis - k)) 0 a = set_nth (Z.to_nat (axis - k)) 0 b ->
+  shape_concat_from k axis a b =
+  Some (set_nth (Z.to_nat (axis - k)) (nth (Z.to_nat (axis - k)) a 0 + nth (Z.to_nat (axis - k)) b 0) a).
+Proof.
+  induction a as [|x a IH]; intros [|y b] k axis Hk Hl He; unfold zlen in Hk; simpl in Hk, Hl; try lia.
+  cbn [shape_concat_from]. destruct (Z.eqb_spec k axis) as [->|Hne].
+  - rewrite Z.sub_diag in *. cbn in He |- *. injection He as ->.
+    now rewrite shape_concat_from_past by lia.
+  - replace (Z.to_nat (axis - k)) with (S (Z.to_nat (axis - (k + 1)))) in * by lia.
+    rewrite !set_nth_S in He. injection He as -> He. rewrite Z.eqb_refl.
+    rewrite set_nth_S. cbn [nth]. rewrite IH; [reflexivity | unfold zlen; lia | lia | assumption].
+Qed.
+
+Lemma set_nth_change_both k m a b : set_nth k 0 a = set_nth k 0 b -> length a = length b ->
+  (k < length a)%nat -> set_nth k m a = set_nth k m b.
+Proof.
+  revert a b. induction k as [|k IH]; intros [|x a] [|y b] He Hl Hk; simpl in Hl, Hk; try lia.
+  - cbn in *. now injection He as ->.
+  - rewrite !set_nth_S in *. injection He as -> He. f_equal. apply IH; auto; lia.
+Qed.
+
+Lemma concat_axis_shape_spec a b axis d : 0 <= axis < zlen a ->
+  np_concat_axis_shape a b axis = Some d -> shape_concat_axis a b axis = Val d.
+Proof.
+  intros Ha H. unfold np_concat_axis_shape in H. rewrite np_axis_nonneg in H by assumption.
+  destruct (length a =? length b)%nat eqn:El; [|discriminate]. apply Nat.eqb_eq in El.
+  destruct (list_eqb _ _) eqn:Ee; [|discriminate]. apply list_eqb_eq in Ee. cbn [andb] in H. injection H as <-.
+  unfold shape_concat_axis. rewrite shape_concat_from_spec; rewrite ?Z.sub_0_r; auto; lia.
+Qed.
+
+Lemma firstn_all' {A} (l : list A) n : n = length l -> firstn n l = l.
+Proof. intros ->. apply firstn_all. Qed.
+
+Lemma concat_axis_elem_spec a b axis d i : 0 <= axis < zlen a ->
+  np_concat_axis_shape a b axis = Some d -> inb i d ->
+  concat_axis_index a b i axis = np_concat_axis_index a i axis
+  /\ match concat_axis_index a b i axis with
+     | OpLeft j => inb j a | OpRight j => inb j b | OpNeither => False end.
+Proof.
+  intros Ha H Hi. unfold np_concat_axis_shape in H. rewrite np_axis_nonneg in H by assumption.
+  destruct (length a =? length b)%nat eqn:El; [|discriminate]. apply Nat.eqb_eq in El.
+  destruct (list_eqb _ _) eqn:Ee; [|discriminate]. apply list_eqb_eq in Ee. cbn [andb] in H. injection H as <-.
+  set (k := Z.to_nat axis) in *. assert (Hk : (k < length a)%nat) by (unfold zlen in Ha; lia).
+  assert (Hli : length i = length a) by (rewrite (inb_length _ _ Hi); now apply set_nth_length).
+  pose proof (inb_set_nth_bound _ _ _ _ Hk Hi) as Hb.
+  unfold concat_axis_index, np_concat_axis_index. rewrite np_axis_nonneg by assumption. fold k.
+  rewrite !at_neg_nonneg by lia. fold k.
+  destruct (Z.ltb_spec (nth k i 0) (nth k a 0)) as [Hlt|Hge].
+  - rewrite firstn_all' by auto. split; [reflexivity|].
+    rewrite <- (set_nth_same i k) by lia. apply (inb_set_nth_change i a k _ _ Hk Hi). lia.
+  - replace (nth k i 0 <? nth k b 0 + nth k a 0) with true by lia.
+    rewrite map_at_spec by (unfold zlen in *; lia). rewrite Z.sub_0_r. fold k.
+    rewrite firstn_all' by (rewrite set_nth_length; lia). split; [reflexivity|].
+    rewrite (set_nth_change_both k _ a b Ee El Hk) in Hi.
+    apply (inb_set_nth_change i b k _ _ ltac:(lia) Hi). lia.
+Qed.
+
+Lemma concat_none_spec a b k : pos a -> pos b -> inb [k] (shape_concat_none a b) ->
+  shape_concat_none a b = np_concat_none_shape a b
+  /\ match concat_none_index a b [k] with
+     | OpLeft j => inb j a /\ np_concat_none_flat a k = (false, horner 0 j a)
+     | OpRight j => inb j b /\ np_concat_none_flat a k = (true, horner 0 j b)
+     | OpNeither => False end.
+Proof.
+  intros Ha Hb Hi. unfold shape_concat_none, np_concat_none_shape, concat_none_index, np_concat_none_flat in *.
+  rewrite !product_eq_prod in *. split; [reflexivity|]. inversion Hi; subst. cbn [hd].
+  destruct (Z.ltb_spec k (prod a)).
+  - destruct (unrav_rank a k Ha ltac:(lia)) as [Hr1 Hr2]. now rewrite Hr2.
+  - replace (k <? prod a + prod b) with true by lia.
+    destruct (unrav_rank b (k - prod a) Hb ltac:(lia)) as [Hr1 Hr2]. now rewrite Hr2.
+Qed.
+
+(* ------------------------------------------------------------------------------------------ *)
+(* tril / triu / tri / eye / diagflat: the keep / fill decision and the source index           *)
+
+Lemma tril_spec s i k : (2 <= length s)%nat -> inb i s ->
+  tril_index s i k = (if np_tril_keep i k then Some (np_tri_source s i) else None)
+  /\ (forall j, tril_index s i k = Some j -> inb j s).
+Proof.
+  intros Hs Hi. pose proof (inb_length _ _ Hi) as Hl. unfold tril_index, np_tril_keep, np_tri_source.
+  replace (1 <? zlen s) with true by (unfold zlen; lia). rewrite firstn_all' by auto.
+  destruct s as [|n [|m s]]; simpl in Hs; try lia.
+  destruct (Z.gtb_spec (znth i (zlen i - 1)) (znth i (zlen i - 2) + k)), (Z.leb_spec (znth i (zlen i - 1)) (znth i (zlen i - 2) + k));
+    try lia; (split; [reflexivity|]); intros j Hj; try discriminate. now injection Hj as <-.
+Qed.
+
+Lemma triu_spec s i k : (2 <= length s)%nat -> inb i s ->
+  triu_index s i k = (if np_triu_keep i k then Some (np_tri_source s i) else None)
+  /\ (forall j, triu_index s i k = Some j -> inb j s).
+Proof.
+  intros Hs Hi. pose proof (inb_length _ _ Hi) as Hl. unfold triu_index, np_triu_keep, np_tri_source.
+  replace (1 <? zlen s) with true by (unfold zlen; lia). rewrite firstn_all' by auto.
+  destruct s as [|n [|m s]]; simpl in Hs; try lia.
+  destruct (Z.gtb_spec (znth i (zlen i - 2)) (znth i (zlen i - 1) - k)), (Z.geb_spec (znth i (zlen i - 1)) (znth i (zlen i - 2) + k));
+    try lia; (split; [reflexivity|]); intros j Hj; try discriminate. now injection Hj as <-.
+Qed.
+
+(* 1-d source: n x n result whose rows are the source *)
+Lemma tril_triu_1d_spec n r c k : 0 <= r < n -> 0 <= c < n ->
+  shape_tri_like [n] = [n; n]
+  /\ tril_index [n] [r; c] k = (if np_tril_keep [r; c] k then Some (np_tri_source [n] [r; c]) else None)
+  /\ triu_index [n] [r; c] k = (if np_triu_keep [r; c] k then Some (np_tri_source [n] [r; c]) else None)
+  /\ inb (np_tri_source [n] [r; c]) [n].
+Proof.
+  intros Hr Hc. split; [reflexivity|]. unfold tril_index, triu_index, np_tril_keep, np_triu_keep, np_tri_source.
+  change (znth [r; c] (zlen [r; c] - 1)) with c. change (znth [r; c] (zlen [r; c] - 2)) with r.
+  change (znth [r; c] 1) with c. change (1 <? zlen [n]) with false. cbv iota. split; [|split].
+  - destruct (Z.gtb_spec c (r + k)), (Z.leb_spec c (r + k)); try lia; reflexivity.
+  - destruct (Z.gtb_spec r (c - k)), (Z.geb_spec c (r + k)); try lia; reflexivity.
+  - repeat constructor; lia.
+Qed.
+
+Lemma tri_eye_spec r c k :
+  tri_is_one [r; c] k = (c <=? r + k) /\ eye_is_one [r; c] k = (c - r =? k).
+Proof.
+  unfold tri_is_one, eye_is_one. change (znth [r; c] 1) with c. change (znth [r; c] 0) with r. split; [reflexivity|].
+  destruct (Z.eqb_spec c (r + k)), (Z.eqb_spec (c - r) k); try lia; reflexivity.
+Qed.
+
+Lemma diagflat_spec n k r c : 0 <= n -> 0 <= r < n + Z.abs k -> 0 <= c < n + Z.abs k ->
+  match diagflat_index [r; c] k, np_diagflat_index [r; c] k with
+  | Some [j], Some j' => j = j' /\ 0 <= j < n
+  | None, None => True
+  | _, _ => False
+  end.
+Proof.
+  intros Hn Hr Hc. unfold diagflat_index, np_diagflat_index.
+  change (znth [r; c] (zlen [r; c] - 1)) with c. change (znth [r; c] (zlen [r; c] - 2)) with r.
+  change (znth [r; c] 1) with c. change (znth [r; c] 0) with r.
+  destruct (Z.eqb_spec c (r + k)); [|exact I].
+  destruct (Z.ltb_spec 0 k); split; lia.
+Qed.
+
+(* ------------------------------------------------------------------------------------------ *)
+(* resize                                                                                      *)
+
+Lemma forallb_impl {A} (f g : A -> bool) l : (forall x, f x = true -> g x = true) -> forallb f l = true -> forallb g l = true.
+Proof. intros H. rewrite !forallb_forall. auto. Qed.
+
+Lemma resize_shape_spec s d r : doc_resize_shape s d = Some r -> shape_resize s d = Val r.
+Proof.
+  unfold doc_resize_shape, shape_resize. intros H.
+  destruct (length s =? length d)%nat eqn:El; [|discriminate]. apply Nat.eqb_eq in El.
+  destruct (forallb (fun x => 1 <=? x) d) eqn:Ef; [|discriminate]. injection H as <-.
+  replace (zlen s =? zlen d) with true by (unfold zlen; lia).
+  rewrite (forallb_impl (fun x => 1 <=? x) (fun x => 0 <? x) d); [reflexivity | intros; lia | assumption].
+Qed.
+
+Lemma resize_elem_spec s : forall d i, length s = length d -> pos s -> inb i d ->
+  resize_index i s d = doc_resize_index s d i /\ inb (resize_index i s d) s.
+Proof.
+  unfold doc_resize_index.
+  induction s as [|n s IH]; intros [|m d] i Hl Hp Hi; simpl in Hl; try lia.
+  - inversion Hi; subst. split; [reflexivity | constructor].
+  - inversion Hi; subst. inversion Hp; subst. cbn [resize_index length seq map nth].
+    rewrite map_seq_shift. cbn [nth].
+    destruct (IH d is ltac:(lia) ltac:(assumption) ltac:(assumption)) as [E Hin]. rewrite E.
+    split; [now rewrite (Z.mul_comm n i0)|]. rewrite <- E. constructor; [|assumption].
+    split; [apply Z.div_pos; nia | apply Z.div_lt_upper_bound; nia].
+Qed.
+
+(* ------------------------------------------------------------------------------------------ *)
+(* one listed axis: sliding_window(a, w, axis) and expand(a, axis, spacing)                    *)
+
+Lemma normalize_axis_np a d : - d <= a < d ->
+  exists k, np_axis a d = Some k /\ normalize_axis a d = Some (Z.of_nat k) /\ (Z.of_nat k < d).
+Proof.
+  intros H. unfold normalize_axis. replace ((- d <=? a) && (a <? d)) with true by lia.
+  destruct (Z.ltb_spec a 0).
+  - rewrite np_axis_neg by lia. eexists. split; [reflexivity|]. split; [f_equal; lia | lia].
+  - rewrite np_axis_nonneg by lia. eexists. split; [reflexivity|]. split; [f_equal; lia | lia].
+Qed.
+
+Lemma map_seq_nth l : map (fun t => nth t l 0) (seq 0 (length l)) = l.
+Proof.
+  induction l as [|x l IH]; [reflexivity|]. cbn [length seq map nth]. rewrite map_seq_shift. cbn [nth]. now rewrite IH.
+Qed.
+
+Lemma map_seq_set_nth (g : Z -> Z) l : forall k, (k < length l)%nat ->
+  map (fun t => if Nat.eqb k t then g (nth t l 0) else nth t l 0) (seq 0 (length l)) = set_nth k (g (nth k l 0)) l.
+Proof.
+  induction l as [|x l IH]; intros [|k] Hk; simpl in Hk; try lia.
+  - cbn [length seq map nth Nat.eqb]. rewrite map_seq_shift. cbn [nth Nat.eqb]. rewrite map_seq_nth. reflexivity.
+  - cbn [length seq map nth Nat.eqb]. rewrite map_seq_shift. cbn [nth Nat.eqb]. rewrite set_nth_S.
+    f_equal. now apply IH.
+Qed.
